@@ -535,5 +535,8 @@ def run(ctx):
     ctx.do(c10.r10_2)  # a removal by UID list (MOVE, POP3 QUIT) runs under a command that excludes the readers it renumbers
     from . import c13 as _c13g
     ctx.do(_c13g.r13_9)  # no message is born \Deleted: the next EXPUNGE would remove what no client flagged
+    from . import c12 as _c12d
+    ctx.do(_c12d.r12_8)  # the row of an emptied \Deleted sequence is really deleted: it does not come back after a restart
+    ctx.do(_c12d.r12_5)
     for k, v in RAISE_AFTER_EFFECT_OK.items():
         ctx.trust(f"frozen raise-after-effect exemption: {k} - {v}")
